@@ -34,6 +34,10 @@ CHECKS = {
             "differential runtime monitor over bytecode variants (raw / RemoveDuplicates / Encode+Decode / original after Encode) run through NewVM.Run under the probe, plus invariant check of the de-duplicated constant pool",
             "Per program (repeated literals, closures, a source module imported from several places, builtin modules, byte-identical functions): three fresh compilations are post-processed like Script.Compile and cmd/tengo do and run; globals, error text and positions must equal the raw run; CONST/CLOSURE operands are range/type checked and no two de-duplicable constants may be equal; the original is re-run and re-encoded after Encode. Held on the programs listed in evidence.",
             "Trusted: gob (encoding), the reference model only as a filter for order-dependent programs."),
+    "C14": ("exploration",
+            "reference-model runtime monitor for locations: the reference interpreter supplies the stack of executing statements, the real error's 'at file:line:col' trace is checked frame by frame against their source spans; errors.Is/As probes for sentinels and host errors",
+            "Failing programs (planted failure of 30 kinds at call depth 0..12 behind functions with removable dead code, in main and in modules, multi-line and shared-line statements; generated programs with ill-typed operations) are run by the real engine and by the reference interpreter; message, frame count and containment of every reported position in the span of the statement executing in that frame are checked. Sentinels (allocation limit, stack overflow, index out of bounds, string/bytes limit) and a host error type are provoked at random depth and must be recognisable through errors.Is / errors.As. Held on the programs listed in evidence.",
+            "Trusted: the reference interpreter's notion of 'statement executing' (innermost simple statement, or the if/for/for-in statement for its header expressions); parser node spans."),
     "C17": ("exploration",
             "differential runtime monitor: fmt.Sprintf as executable oracle over generated directives, 3 entry points, small-MaxStringLen family, totality under recover",
             "Every generated format call is executed by the real formatter (tengo.Format, builtin format, fmt.sprintf in a compiled script) and its text is compared byte-for-byte with fmt.Sprintf on the corresponding Go values; arbitrary format bytes and all object kinds are run under recover for totality; a family runs with MaxStringLen in {16,64,300} and requires text equality or ErrStringLimit exactly when Go's text exceeds the limit. Held on the executions listed in evidence, nothing is proved.",
